@@ -1437,6 +1437,8 @@ def run(chk: core.Check) -> None:
     core.setup_repo_path()
     conf = TIERS[chk.tier]
     G['costly_mod'] = conf['costly_mod']
+    _classes()      # import elementpath.regex once, before any worker is forked
+    import elementpath.regex.unicode_subsets  # noqa: F401
     chk.assumptions += [
         'the oracle is spec/CodePointSet.tla (TLC checks CanonSound, SetLaws, RepInjective on every state and '
         'CanonUnique on a small universe); expected member set AND expected raw list of every replayed step are read '
